@@ -5,6 +5,7 @@ import BigtreeProofs.Lemmas.RenderRT5
 import BigtreeProofs.Lemmas.RenderMermaid
 import BigtreeProofs.Lemmas.RenderH
 import BigtreeProofs.Lemmas.RenderHNodes
+import BigtreeProofs.Lemmas.RenderHInj
 import BigtreeProofs.Lemmas.RenderDot2
 /-!
 # C18 — text and graph renderings encode the tree faithfully
@@ -288,6 +289,23 @@ theorem h_gap_assert (S : HStyle) (inter : Bool) (pad : Nat → Nat) (d : Nat) (
   Render.h_gap_assert S inter pad d a b
 
 example : gapInserted (hblockL exH true (fun _ => 1) 2 [.node ['d'] [], .node ['e'] []]) = true := by decide
+
+/-- Tier 2, decodability of the horizontal form: for every style meeting `hstyleOk` and names without
+white space the decoder `hdecode` reads the rendering back — all of the tree that the text shows
+(`hExpected`: empty slots and, without intermediate names, the names of inner nodes are blank) -/
+theorem h_decodable (S : HStyle) (hS : hstyleOk S = true) (inter : Bool) (md : Nat) (t : HTree)
+    (hn : hnamesOk t = true) :
+    hdecode S (hyieldTree S inter md t) = some (hExpected inter (hprune md t)) :=
+  Render.h_decodable S hS inter md t hn
+
+example : hstyleOk exH = true ∧ hnamesOk (ofTree exT) = true ∧
+    hdecode exH (hyieldTree exH true 0 (ofTree exT)) = some (ofTree exT) := by decide
+
+/-- hence, with intermediate node names, two `Node` trees with the same horizontal rendering are equal -/
+theorem h_injective (S : HStyle) (hS : hstyleOk S = true) (t1 t2 : Tree)
+    (h1 : hnamesOk (ofTree t1) = true) (h2 : hnamesOk (ofTree t2) = true)
+    (h : hyieldTree S true 0 (ofTree t1) = hyieldTree S true 0 (ofTree t2)) : ofTree t1 = ofTree t2 :=
+  hyield_injective S hS t1 t2 h1 h2 h
 
 /-- every entry of the generated `HPRINT_STYLES` table is a well-formed style that meets the
 decodability side conditions `hstyleOk` — except the pinned "ascii" entry (K4) -/
